@@ -50,8 +50,13 @@ for t in toks:
     print('"'+t.replace('\\','\\\\').replace('"','\\"').replace('\\\\x1e','\\x1e')+'"')
 PY
 cd "$WORK"
-"$BIN" corpus -artifact_prefix="$WORK/artifacts/" -dict="$DICT" -seed="$SEED" -runs="$RUNS" -max_len=4096 -len_control=0 -timeout=60 -rss_limit_mb=4096 -jobs="$JOBS" -workers="$JOBS" -print_final_stats=1 >"$WORK/fuzz.log" 2>&1
+# Wall-clock guard for the whole campaign: libFuzzer handles a unit time-out inside a signal
+# handler, which now and then dead-locks the job (seen once: a job waiting on a futex for ever
+# after its 60 s unit time-out). Such a campaign is cut off and counted as inconclusive.
+WALL="${FUZZ_WALL_LIMIT:-$(( 900 + RUNS / 100 ))}"
+timeout -k 10 "$WALL" "$BIN" corpus -artifact_prefix="$WORK/artifacts/" -dict="$DICT" -seed="$SEED" -runs="$RUNS" -max_len=4096 -len_control=0 -timeout=60 -rss_limit_mb=4096 -jobs="$JOBS" -workers="$JOBS" -print_final_stats=1 >"$WORK/fuzz.log" 2>&1
 rc=$?
+if [ "$rc" = 124 ] || [ "$rc" = 137 ]; then echo "fuzz_campaign: campaign cut off after ${WALL}s (a job did not come back; inconclusive for that job)" >&2; fi
 execs=$(cat "$WORK"/fuzz-*.log 2>/dev/null | grep -E "stat::number_of_executed_units" | awk '{s+=$2} END{print s+0}')
 cov=$(cat "$WORK"/fuzz-*.log 2>/dev/null | grep -oE "cov: [0-9]+" | awk '{if($2>m)m=$2} END{print m+0}')
 crashes=$(ls "$WORK/artifacts" 2>/dev/null | grep -c "^crash-" || true)
